@@ -92,7 +92,7 @@ def phase_order(F, rep, rule):
     if not rep.anchor(rule, "Sanitizer::sanitize_to_string", fs): return
     # new helpers are seen through; the phase functions themselves stay visible as calls
     f = mir.inlined(F, fs[0], keep=("replace_non_alphanumeric", "remove_leading_zeros", "remove_leading_zeros_from_segment"))
-    phases = {"lowercase": ("to_lowercase", "to_ascii_lowercase"), "replace": ("Sanitizer::replace_non_alphanumeric",), "truncate": ("String::truncate",),
+    phases = {"lowercase": ("to_lowercase", "to_ascii_lowercase"), "replace": ("Sanitizer::replace_non_alphanumeric",), "truncate": ("String::truncate", "Iterator::take", "Iterator::take_while", "Iterator::nth"),
               "strip_zeros": ("Sanitizer::remove_leading_zeros",), "trim": ("trim_start_matches", "trim_end_matches", "trim_matches")}
     at = {k: [bi for bi, t in f.calls() if any((mir.callee(t) or "").endswith(x) for x in v)] for k, v in phases.items()}
     for k in ("replace", "truncate", "strip_zeros", "trim"):
@@ -266,3 +266,32 @@ def zero_strip_paths(F, rep, rule):
             bad.append("conditions %s" % [mir.show(d)[:50] for d, o, b in sp.conds])
     if bad: rep.bad(rule, "zeros-not-stripped-path", "an all-digit segment can be returned verbatim (leading zeros kept) on a path where the digits test succeeded: %s" % bad[:1], f.where())
     elif n: rep.ok(rule, "no all-digits path returns the raw segment (%d paths)" % n, nontrivial_key="zsp")
+
+
+def strip_per_segment(F, rep, rule):
+    """the per-segment stripper is applied to each separator-delimited segment: some function that reaches it (directly, through a
+    closure or as a function value) splits its input at the configured separator.  A whole-text rewrite (one regex pass, a manual
+    scan) is not evaluated segment by segment and is reported."""
+    cands = segment_strippers(F)
+    if not cands:
+        return
+    names = {c[0].path for c in cands}
+    cg_ = mir.CallGraph(F)
+    inner = [c for c in cands if not any(p in names and p != c[0].path for p in cg_.closure([c[0].path], generic=False))] or cands
+    target = inner[0][0].path
+    callers = []
+    for p, f in sorted(san_fns(F).items()):
+        if f.kind == "closure" or p == target: continue
+        reach = cg_.closure([p], generic=True)
+        if target in reach and p not in names - {target}: callers.append(f)
+        elif target in reach: callers.append(f)
+    splits = []
+    for f in callers:
+        for g in [f] + F.children(f.path):
+            for bi, t in g.calls():
+                c = mir.callee(t) or ""
+                if c.endswith("core::str::<impl str>::split") and len(t[2]) > 1:
+                    srcs = mir.trace_op(g, t[2][1])
+                    if any("separator" in o.path_str() or (o.kind == "upvar" and "sep" in str(o.data)) or o.kind == "param" for o in srcs) or not all(o.kind == "const" for o in srcs): splits.append("%s bb%d" % (g.where(), bi))
+    if splits: rep.ok(rule, "leading zeros are removed segment by segment: the input is split at the separator and each piece goes through %s" % target.rsplit("::", 1)[-1], sample=splits[0], nontrivial_key="perseg")
+    else: rep.bad(rule, "strip-not-per-segment", "no function that reaches the per-segment zero stripper (%s) splits its input at the separator: adjacent numeric segments are not each stripped (e.g. a single regex pass consumes the separator between them)" % target.rsplit("::", 1)[-1], inner[0][0].where())
